@@ -73,7 +73,11 @@ pub fn catch<T>(f: impl FnOnce() -> T) -> Result<T, String> {
         Err(_) => {
             let m = LAST_PANIC.with(|p| p.borrow_mut().take()).unwrap_or_else(|| "?".into());
             // strip the /repo prefix and squeeze whitespace so the site is stable
-            let m = m.replace("/repo/crates/", "");
+            // (wherever the tree under test lives: the location starts the message)
+            let m = match m.find("/crates/") {
+                Some(i) if !m[..i].contains(char::is_whitespace) => m[i + "/crates/".len()..].to_string(),
+                _ => m,
+            };
             Err(format!("panic {}", m.split_whitespace().collect::<Vec<_>>().join("_")))
         }
     }
